@@ -186,12 +186,12 @@ func (c *codecVolatile) DecodeTo(d *binary.Decoder, rv reflect.Value) (err error
 	}
 
 	for i := 0; i < int(size); i++ {
-		k, err := d.ReadSlice()
+		k, err := readSlice(d)
 		if err != nil {
 			return err
 		}
 
-		v, err := d.ReadSlice()
+		v, err := readSlice(d)
 		if err != nil {
 			return err
 		}
